@@ -77,6 +77,8 @@ structure Res where
   wroteMaybe : Bool := false -- whether it wrote depends on the file system / path translation
   updWrite : Bool := false   -- the message makes the next update non-empty (non-incremental request)
   updReq : Bool := false     -- the message is a FramebufferUpdateRequest
+  cbLate : Nat := 0          -- those of `cb` that come after the handler's first write (they do not
+                             -- happen when that write fails: the client is closed, the next read fails)
   cb : Nat := 0              -- application callbacks invoked (keyboard, cut text, text chat, single
                              -- window, server input, xvp, desktop size; pointer events are C06's)
   conn : Conn
@@ -226,23 +228,24 @@ def appPseudoEncoding : Nat := 0x43303400
 /-- the loop `for (i = 0; i < nEncodings; i++) rfbReadExact(cl, &enc, 4)`: stops at the first
 failed read.  Returns the remaining input (`none` if the input ran out), the connection flags the
 encodings switched on, whether the server answered on the way and the extension callbacks made. -/
-def encLoop (cfg : Cfg) : Nat → List UInt8 → Conn → Bool → Nat → (Option (List UInt8) × Conn × Bool × Nat)
-  | 0, inp, c, w, k => (some inp, c, w, k)
-  | n + 1, a :: b :: cc :: d :: rest, c, w, k =>
+def encLoop (cfg : Cfg) : Nat → List UInt8 → Conn → Bool → Nat → Nat → (Option (List UInt8) × Conn × Bool × Nat × Nat)
+  | 0, inp, c, w, k, kl => (some inp, c, w, k, kl)
+  | n + 1, a :: b :: cc :: d :: rest, c, w, k, kl =>
     let enc := be32 a b cc d
     let c1 := if enc = rfbEncodingExtendedClipboard ∧ cfg.utf8 then { c with extClip := true } else c
     let c2 := if enc = rfbEncodingNewFBSize ∨ enc = rfbEncodingExtDesktopSize then { c1 with useNewFB := true } else c1
     let w1 := w || (enc = rfbEncodingXvp ∧ cfg.xvp) || (enc = rfbEncodingExtendedClipboard ∧ cfg.utf8)
-    encLoop cfg n rest c2 w1 (if enc = appPseudoEncoding then k + 1 else k)
-  | _ + 1, _, c, w, k => (none, c, w, k)
+    let hit := if enc = appPseudoEncoding then 1 else 0
+    encLoop cfg n rest c2 w1 (k + hit) (if w then kl + hit else kl)
+  | _ + 1, _, c, w, k, kl => (none, c, w, k, kl)
 
 def hSetEncodings (cfg : Cfg) (c : Conn) (inp : List UInt8) : Res :=
   match inp with
   | _ :: n1 :: n0 :: rest =>
     -- SetEncodings resets useNewFBSize (not enableExtendedClipboard)
-    match encLoop cfg (be16 n1 n0) rest { c with useNewFB := false } false 0 with
-    | (some rest', c', w, k) => { mkCont c' rest' 0 w with cb := k }
-    | (none, _, w, k) => { mkStarved c 0 w with cb := k }
+    match encLoop cfg (be16 n1 n0) rest { c with useNewFB := false } false 0 0 with
+    | (some rest', c', w, k, kl) => { mkCont c' rest' 0 w with cb := k, cbLate := kl }
+    | (none, _, w, k, kl) => { mkStarved c 0 w with cb := k, cbLate := kl }
   | _ => mkStarved c
 
 def hUpdateRequest (cfg : Cfg) (c : Conn) (inp : List UInt8) : Res :=
@@ -354,8 +357,9 @@ def extClipAction (c : Conn) (flags length a : Nat) (rest' : List UInt8) : Res :
     else if length ≠ 4 + formats * 4 then mkClosed c a
     else if flags.testBit 0 then mkCont c rest' a
     else mkCont { c with extClip := false } rest' a
-  else if flags.testBit 25 then mkCont c rest' a      -- Request (server has no data here)
-  else if flags.testBit 26 then mkCont c rest' a      -- Peek
+  -- Request / Peek: answered when the application has published clipboard data
+  else if flags.testBit 25 then { mkCont c rest' a with wroteMaybe := true }
+  else if flags.testBit 26 then { mkCont c rest' a with wroteMaybe := true }
   else if flags.testBit 28 then                       -- Provide: depends on the zlib stream
     if flags % 65536 = 0 then mkCont c rest' a        -- no format bit: the loop body never runs
     else mkUnknown c (max a extClipMax)
@@ -402,15 +406,12 @@ def hSetDesktopSize (c : Conn) (inp : List UInt8) (hook : Bool := false) : Res :
 
 /-! ### TightVNC file-transfer extension (handlefiletransferrequest.c) -/
 
-/-- C `short` made from a 16-bit value -/
-def asShort (v : Nat) : Int := if v < 32768 then v else (v : Int) - 65536
-
-/-- `HandleFileDownloadLengthError` / `HandleFileUploadLengthError`: `calloc((short)size)` -/
+/-- `HandleFileDownloadLengthError` / `HandleFileUploadLengthError` (size is an `unsigned short`
+since 241d6b1): `calloc(size)`, the over-long name is read and dropped, an error reply is sent -/
 def tLengthError (c : Conn) (size : Nat) (rest : List UInt8) : Res :=
-  if asShort size < 0 then mkCont c rest            -- calloc of a huge size fails, handler returns
-  else match readN size rest with
-    | some (_, rest') => { mkCont c rest' size with wroteMaybe := true }
-    | none => mkStarved c size
+  match readN size rest with
+  | some (_, rest') => { mkCont c rest' size with wroteMaybe := true }
+  | none => mkStarved c size
 
 def hTight (cfg : Cfg) (c : Conn) (t : Nat) (inp : List UInt8) : Res :=
   if cfg.view then mkClosed c       -- handleMessage: file transfer disabled or view-only client
